@@ -5,8 +5,9 @@ import Gonuts.Model.SpendBase
   dispatch of `verifyProofs`, `verifyBlindedMessages` and the `ProofsSigAll` uses in `Swap` /
   `MeltTokens`).  Core Lean only (linked into the driver).
 
-  The three places where the code deviates from NUT-11/14 are each ONE marked definition
-  (`DEFECT F6`, `DEFECT F7`, `DEFECT F8`); the rest of the model does not know about them.
+  The three places where the code used to deviate from NUT-11/14 (F6, F7, F8, repaired by `fix:` commits in
+  /repo) are each ONE marked definition (`F6 line`, `F7 line`, `F8 line`); the rest of the model does not know about
+  them, and `Tie.Spend` ties each of them to the source line it mirrors.
 -/
 namespace Gonuts.Model.Spend
 
@@ -138,9 +139,10 @@ def findKey (valid : Sig → Key → Msg → Bool) (m : Msg) (s : Sig) : List Ke
   | k :: ks => if valid s k m then some 0 else (findKey valid m s ks).map (· + 1)
 
 /-- The guard in front of `pubkeysCopy = slices.Delete(pubkeysCopy, i, i+1)`.
-    **F6**: the code reads `if len(pubkeysCopy) > 1`, so the last remaining key is never removed and can be
-    counted again by a second signature of the same signer.  (Repair: delete unconditionally = `true`.) -/
-def removeMatchedKey (keys : List Key) : Bool := decide (keys.length > 1)   -- DEFECT F6
+    **F6 (repaired in /repo: "fix: always remove the matched key in HasValidSignatures")**: the code used to read
+    `if len(pubkeysCopy) > 1` — `decide (keys.length > 1)` — so the last remaining key was never removed and could be
+    counted again by a second signature of the same signer.  Now the deletion is unconditional. -/
+def removeMatchedKey (_keys : List Key) : Bool := true   -- F6 line (was: decide (keys.length > 1))
 
 /-- the outer loop of HasValidSignatures; returns `validSignatures`. -/
 def hvsCount (valid : Sig → Key → Msg → Bool) (m : Msg) : List Sig → List Key → Nat
@@ -264,9 +266,10 @@ def isSigAll (s : Secret) : Bool :=
     | _ => false)
 
 /-- What ProofsSigAll does when `DeserializeSecret` fails on one proof.
-    **F7**: the code does `return false` there (`none` = stop with false), so a SIG_ALL proof behind a plain
-    proof is not seen.  (Repair: `continue` = `some ()`, go on with the remaining proofs.) -/
-def sigAllOnPlainSecret : Option Unit := none   -- DEFECT F7
+    **F7 (repaired in /repo: "fix: ProofsSigAll skips secrets that are not NUT-10 …")**: the code used to
+    `return false` there (`none` = stop with false), so a SIG_ALL proof behind a plain proof was not seen.
+    Now it `continue`s (`some ()` = go on with the remaining proofs). -/
+def sigAllOnPlainSecret : Option Unit := some ()   -- F7 line (was: none)
 
 /-- nut11.ProofsSigAll -/
 def proofsSigAll : List Proof → Bool
@@ -409,9 +412,10 @@ def addWitnessHTLC (env : Env) (sign : Key → Msg → Sig) (proofs : List Proof
         { p with witness := { jsonOk := true, signatures := if signatureNeeded then [sign k p.msg] else [], preimage := preimage } })
 
 /-- The message AddWitnessHTLCToOutputs signs for one output.
-    **F8**: the code signs `sha256([]byte(output.B_))` — the hex TEXT, `some o.msgText` — while the mint
-    verifies over `sha256(hexdecode(B_))`.  (Repair: decode, returning the decode error = `o.msgDecoded`.) -/
-def htlcOutputMsg (o : Output) : Option Msg := some o.msgText   -- DEFECT F8
+    **F8 (repaired in /repo: "fix: hex-decode B_ in AddWitnessHTLCToOutputs before signing")**: the code used to sign
+    `sha256([]byte(output.B_))` — the hex TEXT, `some o.msgText` — while the mint verifies over
+    `sha256(hexdecode(B_))`.  Now it decodes, returning the decode error (`o.msgDecoded`). -/
+def htlcOutputMsg (o : Output) : Option Msg := o.msgDecoded   -- F8 line (was: some o.msgText)
 
 /-- nut14.AddWitnessHTLCToOutputs -/
 def addWitnessHTLCToOutputs (sign : Key → Msg → Sig) (preimage : String) (k : Key) : List Output → Res (List Output)
